@@ -28,15 +28,17 @@ def table_known(F):
 def table_seeded():
     rows = ["| seeded change | property | what it does / what it needs | pinned tests | caught by (quick tier) |", "|---|---|---|---|---|"]
     d = os.path.join(HERE, "seeded")
-    for name in sorted(os.listdir(d)):
+    for name in sorted(os.listdir(d), key=lambda n: (n.split("-")[0], int(n.split("-")[1]) if n.split("-")[-1].isdigit() else 0)):
         mp = os.path.join(d, name, "meta.json")
         if not os.path.exists(mp):
             continue
         m = json.load(open(mp))
         lv = m.get("lead_verification") or {}
-        caught = lv.get("caught_by") or "(not evaluated)"
+        caught = lv["caught_by"] if "caught_by" in lv else "(not evaluated)"
         if isinstance(caught, list):
-            caught = ", ".join(caught) if caught else "**MISSED**"
+            other = lv.get("caught_by_other_check")
+            caught = ", ".join(caught) if caught else ("missed by %s; caught by the %s check: %s" % (
+                name.split("-")[0], other["check"], ", ".join(other["clauses"])) if other else "**MISSED**")
         summ = (m.get("summary", "") + " -- needs: " + m.get("needs", "")).replace("|", "\\|").replace("\n", " ")
         if len(summ) > 420:
             summ = summ[:417] + "..."
